@@ -32,8 +32,12 @@ pub fn install_panic_hook() {
             .cloned()
             .or_else(|| info.payload().downcast_ref::<&str>().map(|s| s.to_string()))
             .unwrap_or_default();
-        if std::env::var("VERIF_SHOW_PANICS").is_ok() {
-            eprintln!("panic at {loc}: {msg}");
+        // panics inside a simulated run are caught and recorded with the run; a panic anywhere else (the worker's
+        // own loop, an oracle) ends the process and must be seen
+        let tn = std::thread::current().name().map(|s| s.to_string()).unwrap_or_default();
+        let in_run = tn == "sim-run" || tn.starts_with("vt-");
+        if !in_run || std::env::var("VERIF_SHOW_PANICS").is_ok() {
+            eprintln!("panic at {loc} (thread `{tn}`): {msg}");
         }
         LAST_PANIC.with(|p| *p.borrow_mut() = Some(format!("{loc}: {msg}")));
     }));
